@@ -4,7 +4,8 @@
   (Model/Interp.lean), transcription of BEGINStatement::doit/docatch, RAISEStatement::doit,
   RuntimeError::THROWABLES (generated table), Context::onRuntimeError (loops of the interrupted region are
   unstacked: `forallExit`), FunctorExpression::value. Clause table: notes/NOTES-p0608.md.
-  Not modelled at this level: `error@1/@2` (no expression node for it in Model/Interp.lean), the interactive runner.
+  `error@1/@2/@3`: `Expr.errorE` / `Expr.item`, the context's record `St.lastErr` (set / cleared by `execBlock` = docatch),
+  the cached function contexts `St.ctxCache`; theorems in the section "the error record" below. Clause table: notes/NOTES-INT.md.
 -/
 import BlocV.Model.Interp
 import BlocV.Proofs.Lemmas.Interp
@@ -58,13 +59,14 @@ theorem builtin_clause_matches :
     · intro a; subst a; exact ⟨rfl, Or.inl (by decide)⟩
 
 /-- Handler selection: when the body of a block raises error (c, a), the FIRST clause (in text order)
-that matches runs, from the state the error left; its outcome — value, break/continue/return, or a
-new error — is the outcome of the block. -/
+that matches runs, from the state the error left with the error saved as the context's record (what `error` reads);
+its outcome — value, break/continue/return, or a new error — is the outcome of the block; the record is cleared when
+the clause ends without error (`handlerExit`). -/
 theorem handler_selection (funcs : List Func) (depth fuel : Nat) (body : List Stmt) (catches : List (String × List Stmt))
     (s s' : St) (c : Nat) (a : Bytes) (n : String) (h : List Stmt)
     (hb : execList funcs depth fuel body s = (.err c a, s')) (hc : (c == oofCode) = false)
     (hm : catches.find? (fun cl => catchMatches cl.1 c a) = some (n, h)) :
-    execBlock funcs depth (fuel + 1) body catches s = execList funcs depth fuel h s' := by
+    execBlock funcs depth (fuel + 1) body catches s = handlerExit (execList funcs depth fuel h { s' with lastErr := (c, a) }) := by
   simp [execBlock, hb, hc, hm]
 
 /-- No matching clause: the error leaves the block unchanged, for the next enclosing block or the host. -/
@@ -128,7 +130,8 @@ theorem inner_unmatched_reaches_outer (funcs : List Func) (depth fuel : Nat) (ib
     (hb : execList funcs depth fuel ibody (tick s) = (.err c a, s')) (hc : (c == oofCode) = false)
     (hin : icatches.find? (fun cl => catchMatches cl.1 c a) = none)
     (hout : ocatches.find? (fun cl => catchMatches cl.1 c a) = some (n, h)) :
-    execBlock funcs depth (fuel + 4) (.beginS ibody icatches :: rest) ocatches s = execList funcs depth (fuel + 3) h s' := by
+    execBlock funcs depth (fuel + 4) (.beginS ibody icatches :: rest) ocatches s =
+      handlerExit (execList funcs depth (fuel + 3) h { s' with lastErr := (c, a) }) := by
   have h1 : execBlock funcs depth (fuel + 1) ibody icatches (tick s) = (.err c a, s') :=
     unmatched_propagates funcs depth fuel ibody icatches _ s' c a hb hc hin
   have h2 : exec funcs depth (fuel + 2) (.beginS ibody icatches) s = (.err c a, s') := by
@@ -144,7 +147,7 @@ theorem inner_matching_handles (funcs : List Func) (depth fuel : Nat) (ibody : L
     (hbud : s.budget ≠ 0)
     (hb : execList funcs depth fuel ibody (tick s) = (.err c a, s')) (hc : (c == oofCode) = false)
     (hin : icatches.find? (fun cl => catchMatches cl.1 c a) = some (n, h)) :
-    exec funcs depth (fuel + 2) (.beginS ibody icatches) s = execList funcs depth fuel h s' := by
+    exec funcs depth (fuel + 2) (.beginS ibody icatches) s = handlerExit (execList funcs depth fuel h { s' with lastErr := (c, a) }) := by
   rw [exec_begin funcs depth (fuel + 1) ibody icatches s hbud]
   exact handler_selection funcs depth fuel ibody icatches _ s' c a n h hb hc hin
 
@@ -157,20 +160,26 @@ theorem error_in_callee_reaches_callers_block (funcs : List Func) (depth fuel : 
     (c : Nat) (a : Bytes) (n : String) (h : List Stmt) (hbud : s.budget ≠ 0)
     (hf : funcs.find? (fun f => f.name == name && f.params.length == args.length) = some f)
     (hd : (depth == Gen.RECURSION_LIMIT) = false)
-    (ha : evalArgs funcs depth fuel args (tick s) = (.ok vals, s1))
-    (hcallee : execBlock funcs (depth + 1) fuel f.body f.catches (calleeInit f vals s1) = (.err c a, sc))
+    (ha : evalArgs funcs depth fuel args (takeCtx f (tick s)) = (.ok vals, s1))
+    (hcallee : execBlock funcs (depth + 1) fuel f.body f.catches (calleeInit f vals (cacheTake s.ctxCache f.key).1 s1) = (.err c a, sc))
     (hc : (c == oofCode) = false)
     (hm : catches.find? (fun cl => catchMatches cl.1 c a) = some (n, h)) :
     execBlock funcs depth (fuel + 5) (.doS (.fcall name args) :: rest) catches s =
-      execList funcs depth (fuel + 4) h { s1 with out := sc.out, budget := sc.budget } := by
+      handlerExit (execList funcs depth (fuel + 4) h
+        { s1 with out := sc.out, budget := sc.budget, ctxCache := cachePut sc.ctxCache f.key sc.lastErr, lastErr := (c, a) }) := by
   have hbud' : (s.budget == 0) = false := by simpa using hbud
-  have h1 : callFunc funcs depth (fuel + 1) name args (tick s) = (.err c a, { s1 with out := sc.out, budget := sc.budget }) := by
-    rw [callFunc_unfold funcs depth fuel name args _ s1 f vals hf hd ha, hcallee]
+  have h1 : callFunc funcs depth (fuel + 1) name args (tick s) =
+      (.err c a, { s1 with out := sc.out, budget := sc.budget, ctxCache := cachePut sc.ctxCache f.key sc.lastErr }) := by
+    rw [callFunc_unfold funcs depth fuel name args _ s1 f vals hf hd ha]
+    show finishCall f s1 (execBlock funcs (depth + 1) fuel f.body f.catches (calleeInit f vals (cacheTake s.ctxCache f.key).1 s1)) = _
+    rw [hcallee]
     rfl
-  have h2 : exec funcs depth (fuel + 3) (.doS (.fcall name args)) s = (.err c a, { s1 with out := sc.out, budget := sc.budget }) := by
+  have h2 : exec funcs depth (fuel + 3) (.doS (.fcall name args)) s =
+      (.err c a, { s1 with out := sc.out, budget := sc.budget, ctxCache := cachePut sc.ctxCache f.key sc.lastErr }) := by
     unfold tick at h1
     simp only [exec, hbud', Bool.false_eq_true, if_false, bind_app, eval, h1]
-  have h3 : execList funcs depth (fuel + 4) (.doS (.fcall name args) :: rest) s = (.err c a, { s1 with out := sc.out, budget := sc.budget }) := by
+  have h3 : execList funcs depth (fuel + 4) (.doS (.fcall name args) :: rest) s =
+      (.err c a, { s1 with out := sc.out, budget := sc.budget, ctxCache := cachePut sc.ctxCache f.key sc.lastErr }) := by
     simp only [execList, bind_app, h2]
   exact handler_selection funcs depth (fuel + 4) _ catches s _ c a n h h3 hc hm
 
@@ -201,8 +210,8 @@ theorem handled_flow_is_handlers_flow (funcs : List Func) (depth fuel : Nat) (bo
     (s s' : St) (c : Nat) (a : Bytes) (n : String) (h : List Stmt)
     (hb : execList funcs depth fuel body s = (.err c a, s')) (hc : (c == oofCode) = false)
     (hm : catches.find? (fun cl => catchMatches cl.1 c a) = some (n, h)) :
-    (execBlock funcs depth (fuel + 1) body catches s).1 = (execList funcs depth fuel h s').1 := by
-  rw [handler_selection funcs depth fuel body catches s s' c a n h hb hc hm]
+    (execBlock funcs depth (fuel + 1) body catches s).1 = (execList funcs depth fuel h { s' with lastErr := (c, a) }).1 := by
+  rw [handler_selection funcs depth fuel body catches s s' c a n h hb hc hm, handlerExit_fst]
 
 /-- **The same context runs further code**: when the handler ends normally, execution continues with the statement after the
 block, from the handler's final state — an ordinary state (variables assigned before the error keep their values, output
@@ -211,10 +220,11 @@ theorem continues_after_handled (funcs : List Func) (depth fuel : Nat) (body res
     (s s' s2 : St) (c : Nat) (a : Bytes) (n : String) (h : List Stmt) (hbud : s.budget ≠ 0)
     (hb : execList funcs depth fuel body (tick s) = (.err c a, s')) (hc : (c == oofCode) = false)
     (hm : catches.find? (fun cl => catchMatches cl.1 c a) = some (n, h))
-    (hh : execList funcs depth fuel h s' = (.ok .norm, s2)) :
-    execList funcs depth (fuel + 3) (.beginS body catches :: rest) s = execList funcs depth (fuel + 2) rest s2 := by
+    (hh : execList funcs depth fuel h { s' with lastErr := (c, a) } = (.ok .norm, s2)) :
+    execList funcs depth (fuel + 3) (.beginS body catches :: rest) s =
+      execList funcs depth (fuel + 2) rest { s2 with lastErr := LastErr.clear } := by
   have h1 := inner_matching_handles funcs depth fuel body catches s s' c a n h hbud hb hc hm
-  rw [hh] at h1
+  rw [hh, handlerExit_ok] at h1
   simp only [execList, bind_app, h1, beq_self_eq_true, if_true, evalM_ite_app]
 
 /-- `raise NAME` for a user-defined name fails with the user code and the name as argument; for the two built-in throwable names
@@ -237,6 +247,242 @@ theorem user_raise_not_matched_by_other_name (n m : String) (hn : findThrowable 
     (hne : nameBytes n ≠ nameBytes m) (ho : (n == "OTHERS") = false) :
     catchMatches n Gen.EXC_RT_USER_S (nameBytes m) = false := by
   unfold catchMatches; simp [hn, ho, hne]
+
+/-! ## the error record: `error@1`, `error@2`, `error@3`
+
+`error` (ERRORExpression::value) reads the context's `_last_error` = `St.lastErr`; `docatch` = `execBlock` sets it when a clause is
+entered (`handler_selection`) and clears it when the clause ends without error (`handlerExit`). -/
+
+/-- a message format without `%` is printed as it is, whatever the argument -/
+theorem fmtS_plain : ∀ (fmt arg : Bytes), (∀ b ∈ fmt, b ≠ 37) → fmtS fmt arg = fmt
+  | [], _, _ => by simp [fmtS]
+  | [c], _, _ => by simp [fmtS]
+  | c :: d :: rest, arg, h => by
+    have hc : c ≠ 37 := h c (by simp)
+    have hc' : (c == 37) = false := by simpa using hc
+    rw [fmtS]
+    simp only [hc', Bool.false_and, Bool.false_eq_true, if_false]
+    rw [fmtS_plain (d :: rest) arg (fun b hb => h b (by simp [hb]))]
+
+/-- **`error` of a user exception**: name and message are the raised name (its bytes up to the buffer size; a name is an
+identifier: no NUL, and here at most 255 bytes — longer ones are cut by `what()`'s buffer), the code is EXC_RT_USER_S = 1. -/
+theorem error_of_user_raise (a : Bytes) (h0 : ∀ b ∈ a, b ≠ 0) (hlen : a.length ≤ 255) :
+    errorTuple (Gen.EXC_RT_USER_S, a) = .ok (.tup errDecl [.str a, .str a, .int 1]) := by
+  have hfmt : Gen.rtMessages[Gen.EXC_RT_USER_S]? = some "%s" := by decide
+  have hb : ("%s" : String).toUTF8.toList = [37, 115] := by decide +kernel
+  have htw : ∀ (a : Bytes), (∀ b ∈ a, b ≠ 0) → a.takeWhile (· != 0) = a := by
+    intro a
+    induction a with
+    | nil => intro _; rfl
+    | cons x xs ih =>
+      intro h0
+      have hx : (x != 0) = true := by simpa using h0 x (by simp)
+      simp only [List.takeWhile_cons, hx, if_true]
+      rw [ih (fun b hb => h0 b (by simp [hb]))]
+  have htw := htw a h0
+  have hneq : (Gen.EXC_RT_USER_S == Gen.EXC_RT_NOERROR) = false := by decide
+  unfold errorTuple errWhat
+  simp only [hneq, Bool.false_eq_true, if_false, hfmt, hb, htw, fmtS, beq_self_eq_true, Bool.and_self, if_true, List.append_nil]
+  rw [List.take_of_length_le (by simpa [Gen.WHAT_BUFFER] using hlen)]
+  rfl
+
+/-- **`error` of the two catchable built-in errors**: `@1` is the throwable's keyword, `@2` the message of the generated table,
+`@3` the code — whatever argument the error carries. -/
+theorem error_of_builtin_throwable (a : Bytes) :
+    errorTuple (Gen.EXC_RT_DIVIDE_BY_ZERO, a) =
+      .ok (.tup errDecl [.str "DIVIDE_BY_ZERO".toUTF8.toList, .str "Divide by zero.".toUTF8.toList, .int 23]) ∧
+    errorTuple (Gen.EXC_RT_OUT_OF_RANGE, a) =
+      .ok (.tup errDecl [.str "OUT_OF_RANGE".toUTF8.toList, .str "Out of range.".toUTF8.toList, .int 21]) := by
+  have h1 : Gen.rtMessages[Gen.EXC_RT_DIVIDE_BY_ZERO]? = some "Divide by zero." := by decide
+  have h2 : Gen.rtMessages[Gen.EXC_RT_OUT_OF_RANGE]? = some "Out of range." := by decide
+  have n1 : (Gen.EXC_RT_DIVIDE_BY_ZERO == Gen.EXC_RT_NOERROR) = false := by decide
+  have n2 : (Gen.EXC_RT_OUT_OF_RANGE == Gen.EXC_RT_NOERROR) = false := by decide
+  have p1 : ∀ b ∈ ("Divide by zero." : String).toUTF8.toList, b ≠ 37 := by decide +kernel
+  have p2 : ∀ b ∈ ("Out of range." : String).toUTF8.toList, b ≠ 37 := by decide +kernel
+  have k1 : throwableKeyword Gen.EXC_RT_DIVIDE_BY_ZERO = "DIVIDE_BY_ZERO".toUTF8.toList := by decide +kernel
+  have k2 : throwableKeyword Gen.EXC_RT_OUT_OF_RANGE = "OUT_OF_RANGE".toUTF8.toList := by decide +kernel
+  have t1 : List.take (Gen.WHAT_BUFFER - 1) "Divide by zero.".toUTF8.toList = "Divide by zero.".toUTF8.toList := by decide +kernel
+  have t2 : List.take (Gen.WHAT_BUFFER - 1) "Out of range.".toUTF8.toList = "Out of range.".toUTF8.toList := by decide +kernel
+  have u1 : (Gen.EXC_RT_DIVIDE_BY_ZERO == Gen.EXC_RT_USER_S) = false := by decide
+  have u2 : (Gen.EXC_RT_OUT_OF_RANGE == Gen.EXC_RT_USER_S) = false := by decide
+  have i1 : Int64.ofNat Gen.EXC_RT_DIVIDE_BY_ZERO = 23 := by decide +kernel
+  have i2 : Int64.ofNat Gen.EXC_RT_OUT_OF_RANGE = 21 := by decide +kernel
+  constructor
+  · unfold errorTuple errWhat
+    simp only [n1, Bool.false_eq_true, if_false, h1, fmtS_plain _ _ p1, k1, t1, u1, i1]
+  · unfold errorTuple errWhat
+    simp only [n2, Bool.false_eq_true, if_false, h2, fmtS_plain _ _ p2, k2, t2, u2, i2]
+
+/-- with no error recorded `error` is ("", "", 0) — what a program reads outside every handler, and (finding
+C07.error_record_cleared_by_inner_handler) inside a handler after an inner block handled an error of its own -/
+theorem error_of_clear_record : errorTuple LastErr.clear = .ok (.tup errDecl [.str [], .str [], .int 0]) := by rfl
+
+/-- `error@N` for N = 1, 2, 3 is the N-th component of the record's tuple; the state is left alone. -/
+theorem eval_error_item (funcs : List Func) (depth fuel : Nat) (s : St) (x1 x2 x3 : Val)
+    (hx : errorTuple s.lastErr = .ok (.tup errDecl [x1, x2, x3])) :
+    eval funcs depth (fuel + 2) (.item .errorE 1) s = (.ok x1, s) ∧
+    eval funcs depth (fuel + 2) (.item .errorE 2) s = (.ok x2, s) ∧
+    eval funcs depth (fuel + 2) (.item .errorE 3) s = (.ok x3, s) := by
+  have e : eval funcs depth (fuel + 1) .errorE s = (.ok (.tup errDecl [x1, x2, x3]), s) := by rw [eval_error, hx]
+  refine ⟨?_, ?_, ?_⟩ <;>
+    simp [eval, itemAt, itemNo, liftR, bind, e, monadLift, MonadLift.monadLift, itemAtV, itemIndex, Val.isNull, errDecl, liftM]
+
+/-- **In the first matching clause `error` describes the error that was raised**: the clause starts in the state the error left,
+with that error as the record; there `error` evaluates to `errorTuple (c, a)` — for a user exception (name, name, 1), for
+DIVIDE_BY_ZERO / OUT_OF_RANGE (keyword, message, code) by the three theorems above. -/
+theorem handler_sees_its_error (funcs : List Func) (depth fuel k : Nat) (body : List Stmt) (catches : List (String × List Stmt))
+    (s s' : St) (c : Nat) (a : Bytes) (n : String) (h : List Stmt)
+    (hb : execList funcs depth fuel body s = (.err c a, s')) (hc : (c == oofCode) = false)
+    (hm : catches.find? (fun cl => catchMatches cl.1 c a) = some (n, h)) :
+    execBlock funcs depth (fuel + 1) body catches s = handlerExit (execList funcs depth fuel h { s' with lastErr := (c, a) }) ∧
+    eval funcs depth (k + 1) .errorE { s' with lastErr := (c, a) } = (errorTuple (c, a), { s' with lastErr := (c, a) }) :=
+  ⟨handler_selection funcs depth fuel body catches s s' c a n h hb hc hm, eval_error funcs depth k _⟩
+
+/- FULL STATEMENT asked for by the property ("with error@1/@2 describing it", for the whole clause): a handled INNER error does not
+   change what the outer clause reads for ITS error:
+     ∀ …, (exec funcs depth (fuel + 2) (.beginS ibody icatches) s).2.lastErr = s.lastErr
+   FALSE for the code: docatch ends with `ctx.error(RuntimeError())`, it does not restore the record it overwrote. Proved instead:
+   the negation, in general (`inner_handled_error_clears_record`) and at a witness run on the library
+   (`outer_handler_loses_its_error_witness`; finding C07.error_record_cleared_by_inner_handler). -/
+/-- **An inner block that handles an error of its own CLEARS the record** — whatever it was before, in particular the error of an
+enclosing clause that is still running. -/
+theorem inner_handled_error_clears_record_partial (funcs : List Func) (depth fuel : Nat) (ibody : List Stmt)
+    (icatches : List (String × List Stmt)) (s s' s2 : St) (c : Nat) (a : Bytes) (n : String) (h : List Stmt) (fl : Flow)
+    (hbud : s.budget ≠ 0)
+    (hb : execList funcs depth fuel ibody (tick s) = (.err c a, s')) (hc : (c == oofCode) = false)
+    (hin : icatches.find? (fun cl => catchMatches cl.1 c a) = some (n, h))
+    (hh : execList funcs depth fuel h { s' with lastErr := (c, a) } = (.ok fl, s2)) :
+    exec funcs depth (fuel + 2) (.beginS ibody icatches) s = (.ok fl, { s2 with lastErr := LastErr.clear }) := by
+  rw [inner_matching_handles funcs depth fuel ibody icatches s s' c a n h hbud hb hc hin, hh, handlerExit_ok]
+
+/-- the witness: `begin raise E1; exception when E1 then print error@1 error@3; begin raise E2; exception when E2 then nop; end;
+print error@1 error@3; end;` prints `E11` and then `0`: after the inner block the clause of E1 no longer sees E1. -/
+theorem outer_handler_loses_its_error_witness :
+    (execList [] 0 30 [.beginS [.raiseS "E1"] [("E1", [.printS [.item .errorE 1, .item .errorE 3],
+        .beginS [.raiseS "E2"] [("E2", [.nop])], .printS [.item .errorE 1, .item .errorE 3]])]] {}).2.out =
+      [[10], [48], [], [10], [49], [69, 49]] := by decide +kernel
+
+/-- **A clause that fails leaves the record as it is** ("kept for debug"): nothing clears it until another clause of the same context
+ends — so it is what `error` reads afterwards outside every handler (a later program in the same context; a later call that gets the
+same cached function context: C08 `call_depends_on_earlier_failed_call`). -/
+theorem failed_handler_keeps_record (funcs : List Func) (depth fuel : Nat) (body : List Stmt) (catches : List (String × List Stmt))
+    (s s' s2 : St) (c c2 : Nat) (a a2 : Bytes) (n : String) (h : List Stmt)
+    (hb : execList funcs depth fuel body s = (.err c a, s')) (hc : (c == oofCode) = false)
+    (hm : catches.find? (fun cl => catchMatches cl.1 c a) = some (n, h))
+    (hh : execList funcs depth fuel h { s' with lastErr := (c, a) } = (.err c2 a2, s2)) :
+    execBlock funcs depth (fuel + 1) body catches s = (.err c2 a2, s2) := by
+  rw [handler_selection funcs depth fuel body catches s s' c a n h hb hc hm, hh, handlerExit_err]
+
+/-- hypotheses of `failed_handler_keeps_record` at work: `begin raise E1; exception when E1 then raise E2; end` ends with E2 and the record E1 -/
+example : (let r := execList [] 0 20 [.beginS [.raiseS "E1"] [("E1", [.raiseS "E2"])]] {}
+    (match r.1 with | .err c a => c == 1 && a == [69, 50] | _ => false, r.2.lastErr)) = (true, (1, [69, 49])) := by decide +kernel
+
+/-- a user raise caught by its clause: `error@1`, `error@2` are the name, `error@3` is 1; DIVIDE_BY_ZERO caught by `others` -/
+example : (execList [] 0 30 [.beginS [.raiseS "BOOM"] [("BOOM", [.printS [.item .errorE 1, .item .errorE 2, .item .errorE 3]])],
+      .beginS [.doS (.bin .div (.lit (.int 1)) (.lit (.int 0)))] [("OTHERS", [.printS [.item .errorE 1, .item .errorE 3]])]] {}).2.out =
+    [[10], [50, 51], "DIVIDE_BY_ZERO".toUTF8.toList, [10], [49], [66, 79, 79, 77], [66, 79, 79, 77]] := by decide +kernel
+
+/-! ## output printed before an error stays; the `for`/`while` control entries; the interactive runner -/
+
+/-- **Output only grows**: whatever a statement list does — ends normally, fails, handles errors, calls functions, runs out of
+fuel — the output after it is the output before it plus what was printed since (`Lemmas.frame_all` for `OutGrows`). -/
+theorem output_only_grows (funcs : List Func) (depth fuel : Nat) (prog : List Stmt) (s : St) :
+    ∃ t : Bytes, (execList funcs depth fuel prog s).2.output = s.output ++ t :=
+  output_prefix_of_outGrows _ _ (((frame_all outGrows_frame funcs fuel).2.2.2.2.1 depth prog).h s)
+
+/-- **Output produced before an error is preserved**: when the body of a block fails, everything printed before the block and inside it
+up to the failing operation is part of the output the handler starts with (and, by `output_only_grows` again, of the final output of
+the block, handled or not). -/
+theorem output_before_error_preserved (funcs : List Func) (depth fuel : Nat) (body : List Stmt) (catches : List (String × List Stmt))
+    (s s' : St) (c : Nat) (a : Bytes) (hb : execList funcs depth fuel body s = (.err c a, s')) :
+    (∃ t : Bytes, s'.output = s.output ++ t) ∧
+    (∃ t : Bytes, (execBlock funcs depth (fuel + 1) body catches s).2.output = s'.output ++ t) := by
+  constructor
+  · have := output_only_grows funcs depth fuel body s
+    rwa [hb] at this
+  · have h1 : ∀ (x : St), OutGrows x (execBlock funcs depth (fuel + 1) body catches s).2 →
+        ∃ t : Bytes, (execBlock funcs depth (fuel + 1) body catches s).2.output = x.output ++ t :=
+      fun x h => output_prefix_of_outGrows _ _ h
+    apply h1
+    simp only [execBlock, hb]
+    split
+    · exact outGrows_frame.rel.refl _
+    · split
+      · rename_i handler hfind
+        have h2 := ((frame_all outGrows_frame funcs fuel).2.2.2.2.1 depth handler).h { s' with lastErr := (c, a) }
+        have h3 : OutGrows s' { s' with lastErr := (c, a) } := outGrows_frame.upd _ _ rfl rfl
+        unfold handlerExit
+        split
+        · rename_i fl s2 heq2
+          rw [heq2] at h2
+          exact outGrows_frame.rel.trans h3 (outGrows_frame.rel.trans h2 (outGrows_frame.upd _ _ rfl rfl))
+        · exact outGrows_frame.rel.trans h3 h2
+      · exact outGrows_frame.rel.refl _
+
+/-- `print "a"; begin print "b"; raise E; exception when others then print "c"; end` -/
+example : (execList [] 0 20 [.printS [.lit (.str [97])], .beginS [.printS [.lit (.str [98])], .raiseS "E"] [("OTHERS", [.printS [.lit (.str [99])]])]] {}).2.output =
+    [97, 10, 98, 10, 99, 10] := by decide +kernel
+
+/-- **No residue, `for`/`while` entries, program runs**: a run through `Executable::run` (`execList`; also a block, a statement, a call)
+never leaves or removes a `for`/`while` entry of the control stack — whatever the outcome. -/
+theorem program_run_keeps_control_entries (funcs : List Func) (depth fuel : Nat) (prog : List Stmt) (s : St) :
+    (execList funcs depth fuel prog s).2.ctl = s.ctl :=
+  ((frame_all sameCtl_frame funcs fuel).2.2.2.2.1 depth prog).h s
+
+/- FULL STATEMENT for the interactive runner (C07: "after an error has been handled or reported, no control state of the interrupted
+   region survives"):   ∀ funcs fuel prog s, s.ctl = [] → (runInteractive funcs fuel prog s).2.ctl = []
+   FALSE for the code (apps/cli_parser.cpp executes the statement without Executable::run): negation at a witness, run on the library
+   through the probe op `istep` (finding C07.interactive_runner_keeps_control_entry); the symbolic form for `while` follows. -/
+/-- the witness: `zero = 0; while (1 / zero) > 0 loop nop; end loop; print "alive";` typed at the prompt: the `while` fails with
+DIVIDE_BY_ZERO, the session goes on — and the WHILE entry is still on the control stack at the end. -/
+theorem interactive_runner_leaves_residue_witness :
+    (let r := runInteractive [] 30 [.letS "zero" (.lit (.int 0)),
+        .whileS (.bin .gt (.bin .div (.lit (.int 1)) (.var "zero")) (.lit (.int 0))) [.nop], .printS [.lit (.str [97])]] {}
+     (r.1.map (fun x => match x with | .ok _ => 0 | .err c _ => c | _ => 999), r.2.ctl, r.2.out)) =
+    ([0, 23, 0], ["while"], [[10], [97]]) := by decide +kernel
+
+/-- **Interactive runner, `while` whose condition fails** (first evaluation shown): the error reaches the runner with the WHILE entry
+stacked — `St.ctl` is one longer than before, for ANY condition, body, state and error. -/
+theorem interactive_while_condition_error_leaves_entry (funcs : List Func) (k : Nat) (c : Expr) (body : List Stmt) (s s' : St)
+    (code : Nat) (a : Bytes) (hbud : s.budget ≠ 0)
+    (hc : eval funcs 0 (k + 1) c { s with budget := s.budget - 1, ctl := "while" :: s.ctl } = (.err code a, s')) :
+    stepTop funcs (k + 1) (.whileS c body) s = (.err code a, s') ∧ s'.ctl = "while" :: s.ctl := by
+  have hbud' : (s.budget == 0) = false := by simpa using hbud
+  have hctl := ((frame_all sameCtl_frame funcs (k + 1)).1 0 c).h { s with budget := s.budget - 1, ctl := "while" :: s.ctl }
+  rw [hc] at hctl
+  refine ⟨?_, hctl⟩
+  unfold stepTop
+  simp only [hbud', Bool.false_eq_true, if_false]
+  show (ctlPush "while" >>= fun _ => whileLoop (eval funcs 0 (k + 1) c) (purgeOnErr (execList funcs 0 (k + 1) body)) (k + 1) >>=
+    fun fl => ctlPop >>= fun _ => pure fl) { s with budget := s.budget - 1 } = _
+  rw [bind_app]
+  show (whileLoop (eval funcs 0 (k + 1) c) (purgeOnErr (execList funcs 0 (k + 1) body)) (k + 1) >>= fun fl => ctlPop >>= fun _ => pure fl)
+    { s with budget := s.budget - 1, ctl := "while" :: s.ctl } = _
+  rw [bind_app]
+  have : whileLoop (eval funcs 0 (k + 1) c) (purgeOnErr (execList funcs 0 (k + 1) body)) (k + 1)
+      { s with budget := s.budget - 1, ctl := "while" :: s.ctl } = (.err code a, s') := by
+    simp only [whileLoop, bind_app, hc]
+  rw [this]
+
+/-- **Interactive runner, simple statements and blocks**: a statement that is neither a loop nor an `if` — an assignment, `do`, `print`,
+`raise`, a whole `begin … exception … end` block with everything nested in it — leaves the control entries exactly as they were,
+whatever its outcome: it creates no residue and removes none. -/
+theorem interactive_simple_statement_keeps_entries (funcs : List Func) (fuel : Nat) (st : Stmt) (s : St)
+    (hst : match st with | .whileS .. | .forS .. | .ifS .. | .forallS .. => False | _ => True) :
+    (stepTop funcs fuel st s).2.ctl = s.ctl := by
+  have key : ∀ x : St, (exec funcs 0 (fuel + 1) st x).2.ctl = x.ctl :=
+    fun x => ((frame_all sameCtl_frame funcs (fuel + 1)).2.2.2.2.2.1 0 st).h x
+  unfold stepTop
+  split
+  · rfl
+  · cases st <;> first | exact False.elim hst | (simp only []; rw [key])
+
+/-- hypotheses of `interactive_while_condition_error_leaves_entry` are satisfiable: `while 1/0 > 0 …` in a state with one stale entry -/
+example : (stepTop [] 10 (.whileS (.bin .gt (.bin .div (.lit (.int 1)) (.lit (.int 0))) (.lit (.int 0))) [.nop]) { ctl := ["for K"] }).2.ctl =
+    ["while", "for K"] := by decide +kernel
+
+/-- a failing BODY at top level removes every entry (the body's `Executable::run` calls `onRuntimeError` at level 0), also stale ones -/
+example : (stepTop [] 10 (.whileS (.lit (.bool true)) [.raiseS "E"]) { ctl := ["for K"] }).2.ctl = [] := by decide +kernel
 
 /-- `begin begin raise E1; exception when E2 then print "inner"; end; print "skipped"; exception when E1 then print "outer"; end; print "after";`:
 the inner block has no clause for E1, the outer one handles it; what follows runs normally. -/
